@@ -69,7 +69,7 @@ class Model:
                         else:
                             s[("fld", o.name, f)] = Int("f_%s_%s_%d" % (o.name, f, t))
             elif o.kind == "wire":
-                for f_ in ("eof", "close", "sent"):
+                for f_ in ("eof", "close", "sent", "unlinked"):
                     s[("wire", o.name, f_)] = Int("wire_%s_%s_%d" % (o.name, f_, t))
                 s[("wire", o.name, "data_after")] = z3.Bool("wire_%s_da_%d" % (o.name, t))
             elif o.kind == "lock":
@@ -109,7 +109,7 @@ class Model:
                             continue
                         cs.append(s[("fld", o.name, f)] == d.init)
             elif o.kind == "wire":
-                cs += [s[("wire", o.name, f_)] == 0 for f_ in ("eof", "close", "sent")]
+                cs += [s[("wire", o.name, f_)] == 0 for f_ in ("eof", "close", "sent", "unlinked")]
                 cs.append(z3.Not(s[("wire", o.name, "data_after")]))
             elif o.kind == "lock":
                 cs.append(s[("own", o.name)] == -1)
@@ -244,6 +244,8 @@ class Model:
                     late = z3.And(z3.Or(code == 94, code == 95), z3.Or(eof > 0, clo > 0))
                     put(("wire", wname, "data_after"), act, z3.Or(a[("wire", wname, "data_after")], late))
                     put(("wire", wname, "sent"), act, a[("wire", wname, "sent")] + 1)
+                elif op == "wire_unlink":
+                    put(("wire", ins.a, "unlinked"), act, a[("wire", ins.a, "unlinked")] + 1)
                 elif op == "clock":
                     put("clock", act, fresh_clock)
                     self.store(put, ins.a, act, V(fresh_clock), ti, a)
